@@ -304,11 +304,11 @@ def _steps(it, n):
     return [_one(it) for _ in range(n)]
 
 
-def interleave_oracle(ctx):
+def interleave_oracle(ctx, profile="all", n_quick=400):
     def make(rng):
         ndocs = rng.randint(1, 2)
         docs = [gen.gen_doc(rng) for _ in range(ndocs)]
-        pg = gen.PathGen(rng, "all")
+        pg = gen.PathGen(rng, profile)
         base = pg.gen_path([docs[0]], maxlen=3)
         paths = [base]
         # a path that reuses the base as the relative path of its own filter, and an extension
@@ -335,7 +335,12 @@ def interleave_oracle(ctx):
             while any(p[0][0] == "rec" and len(p) > 1 and p[1][0] == "rec" for p in sc["paths"]):
                 sc["paths"] = [[p[0]] + [x for x in p[1:] if x[0] != "rec"] for p in sc["paths"]]
         return sc
-    _run(ctx, "interleave", 400, 12000, make, interleave_check)
+    _run(ctx, "interleave", n_quick, 12000, make, interleave_check)
+
+
+def interleave_child_oracle(ctx):
+    """several live searches by one path object of child steps (comma lists, slices, wildcards) over one or two documents"""
+    interleave_oracle(ctx, profile="child", n_quick=600)
 
 
 def thread_check(sc):
